@@ -4,9 +4,10 @@
   Model: `Lumina/Model/Sample.lean` (`verify` = `Sample::verify` after the `fix:` commit, `verifyUnfixed` = before),
   over the nmt-rs model `Lumina/Model/Nmt.lean` and the square/DAH model `Lumina/Model/Eds.lean`.
   Spec: `Lumina/Spec/C04.lean` (`specVerify`, `specHonest`), which does not mention the model.
-  The hash is a parameter.  Soundness is stated under the idealised-hash hypothesis `HashOK H` (injective,
-  32-byte output) and, equivalently, in the "accepting a wrong share yields an explicit collision" form, which
-  is satisfiable by real hash functions.  Completeness needs only the 32-byte output length.
+  The hash is a parameter.  Soundness is stated under collision-freeness RELATIVE TO the byte strings actually hashed
+  (`HashOKOn H (· ∈ hashedC04 H e s)`: the square's row/column trees and the verifier's run; satisfiable, see the
+  non-vacuity instance) and as a reduction: accepting a wrong share yields an explicit collision among those inputs
+  (`sample_forgery_yields_collision`).  Completeness needs only the 32-byte output length.
 -/
 import Lumina.Proofs.Sample
 import Lumina.Gen.C04
